@@ -235,3 +235,64 @@ CONFIG["C09"] = dict(
     level_note="partial: BLST internals and the Go runtime are not modelled; a hash.Hasher lying about Size() is a program, not an input",
     assumptions=["documented exceptions excluded: UintN(0), nil interface/callback arguments, sizes whose documented cost is linear memory, no-cgo builds"],
 )
+
+
+def _c20_hook(ctx):
+    """build the transcript program in the other build configurations and compare the transcripts byte for byte"""
+    import os, subprocess, json
+    build, work, goenv = ctx["build"], ctx["work"], ctx["goenv"]
+    ref_dir = os.path.join(work, "C20")
+    ref = open(os.path.join(ref_dir, "impl.txt")).read().split("\n")
+    ref_cases = open(os.path.join(ref_dir, "cases.txt")).read().split("\n")
+    marker = next((i for i, l in enumerate(ref) if l.endswith(" part-B")), len(ref))
+    configs = [
+        ("portable (CGO_CFLAGS=-O2 -D__BLST_PORTABLE__)", {"CGO_CFLAGS": "-O2 -D__BLST_PORTABLE__"}, "verif", False),
+        ("purego (-tags purego)", {}, "verif purego", False),
+        ("no_cgo (CGO_ENABLED=0 -tags no_cgo)", {"CGO_ENABLED": "0"}, "verif no_cgo", True),
+    ]
+    violations, compared, samples = [], 0, []
+    with ctx["lock"]():
+        bins = []
+        for k, (name, env, tags, prefix_only) in enumerate(configs):
+            out = f"harness-c20-{k}"
+            rc, log, dt = ctx["build_harness"](tags=tags, outname=out, extra_env=env)
+            if rc != 0:
+                return {"broken": [f"the harness does not build in configuration {name}: {log[-400:]}"], "coverage": {}}
+            bins.append(out)
+    for k, (name, env, tags, prefix_only) in enumerate(configs):
+        d = os.path.join(work, f"C20-{k}")
+        os.makedirs(d, exist_ok=True)
+        p = subprocess.run([os.path.join(build, bins[k]), "-prop", "C20", "-tier", ctx["tier"], "-seed", str(ctx["seed"]), "-out", d],
+                           env=dict(goenv), capture_output=True, text=True)
+        if p.returncode != 0:
+            return {"broken": [f"transcript program failed in configuration {name}: {p.stderr[-400:]}"], "coverage": {}}
+        got = open(os.path.join(d, "impl.txt")).read().split("\n")
+        want = ref[:marker] + [""] if prefix_only else ref
+        if prefix_only:
+            got = [l for l in got if l][:marker] + [""]
+        n = min(len(got), len(want))
+        compared += n
+        bad = next((i for i in range(n) if got[i] != want[i]), None)
+        if bad is None and len(got) != len(want):
+            bad = n - 1
+        if bad is not None:
+            violations.append({"class": "config", "id": f"config-{k}", "line": ref_cases[bad] if bad < len(ref_cases) else "",
+                               "impl": f"[{name}] " + (got[bad] if bad < len(got) else "<missing>"),
+                               "model": "[default build] " + (want[bad] if bad < len(want) else "<missing>")})
+        samples.append(f"{name}: {n} transcript lines identical to the default build" if bad is None else f"{name}: differs at line {bad}")
+    return {"violations": violations, "samples": samples, "evaluations": compared, "distinct": compared,
+            "coverage": {"programs": 1 + len(configs), "disagreements_checked": compared,
+                         "configurations": ["default (ADX assembly, amd64 Keccak assembly)"] + [c[0] for c in configs]}}
+
+
+CONFIG["C20"] = dict(
+    lean_modules=[], generators=["C20"], level="translation_validation", hooks=[_c20_hook],
+    rule="one deterministic transcript program (hashing/KMAC all-splits, PRG, ECDSA key generation/decoding/verification of model-made signatures; with cgo: BLS decoding, key generation, sign/verify catalogue, aggregation, "
+         "many-message verification, SPoCK, threshold key generation/reconstruction, full DKG executions) built in the four configurations of the property; every transcript is compared byte for byte with the default build's and the default build's with the Lean model; "
+         "the no_cgo build is compared on the non-BLS part",
+    trusted_base=COMMON_TB + ["the assembly / portable C / pure Go code paths themselves are third-party or machine code that no model in this project represents: agreement is observed on the transcript, not proved"],
+    technique="translation validation: the same transcript program in four build configurations against one Lean model",
+    level_text="Decided on every run for the transcript: all configurations agree with each other and with the configuration-free Lean model. Nothing beyond the transcript is proved (honest ceiling for machine code paths).",
+    level_note="translation validation, not proof: -D__BLST_NO_ASM__ is not part of the claim (does not compile at the pinned commit)",
+    assumptions=["the transcript is representative of the deterministic operations of the module"],
+)
